@@ -118,7 +118,10 @@ class Report:
                 json.dump({"property": self.prop, "rule": o.rule, "clause": self.rules.get(o.rule, ""),
                            "instance": o.key, "loc": o.loc, "detail": o.detail, "tier": self.tier}, fh, indent=1)
             lines.append("VIOLATION property=%s replay=%s" % (self.prop, path))
-            lines.append("  rule=%s at %s\n  instance: %s\n  %s" % (o.rule, o.loc, o.key, o.detail))
+            if i < 12:
+                lines.append("  rule=%s at %s\n  instance: %s\n  %s" % (o.rule, o.loc, o.key, o.detail))
+            elif i == 12:
+                lines.append("  (details of further violations are in their replay files)")
         # evidence
         per_rule = {}
         for o in self.obs:
